@@ -134,7 +134,7 @@ PARTS = {"sim": {"check": check_case, "strategy": cases, "budget": {"quick": 800
 
 
 def vacuity(merged, tier):
-    for cls, lim in (("crosses_100", 0.4), ("crosses_200", 0.1), ("fills", 0.5)):
+    for cls, lim in (("crosses_100", 0.16), ("crosses_200", 0.04), ("fills", 0.2)):
         if frac(merged, "sim", cls) < lim:
             return f"class {cls} below {lim:.0%} of runs"
     return None
